@@ -245,6 +245,21 @@ def m_iter_any_all(ex, st, callee, args):
     return [(None, step(0, []))]
 
 
+def m_str_contains_pred(ex, st, callee, args):
+    """str::contains(|c| pred(c)): some character satisfies the (pure) closure"""
+    from sym import Invoke
+    fn = _closure_or_fail(ex, callee)
+    s_ = need(ex, st, args[0], callee)
+    items = list(s_.fields)
+    env = args[1]
+
+    def step(i, acc):
+        if i == len(items):
+            return Sc("bool", z3.Or(*acc)) if acc else boolv(False)
+        return Invoke(fn, [env, items[i]], lambda st2, val: step(i + 1, acc + [val.e]))
+    return [(None, step(0, []))]
+
+
 def m_iter_map(ex, st, callee, args):
     return [(None, Adt("MapIter", None, [args[0], args[1], Opaque("closure-fn", _closure_or_fail(ex, callee))]))]
 
@@ -411,6 +426,7 @@ def install(m):
         (r"^String::clear$", m_string_clear),
         (r"^(core::|alloc::)?str::<impl str>::replace::<char>$", m_str_replace_char),
         (r"^(core::)?str::<impl str>::contains::<char>$", m_str_contains_char),
+        (r"^(core::)?str::<impl str>::contains::<\{closure@", m_str_contains_pred),
         (r"^(core::)?str::<impl str>::chars$", m_chars),
         (r"^<Chars<'_> as IntoIterator>::into_iter$", lambda ex, st, c, a: [(None, a[0])]),
         (r"^<Chars<'_> as Iterator>::next$", m_chars_next),
